@@ -208,7 +208,10 @@ def step(h, tier):
 # failing writes followed by a repaired write
 # ---------------------------------------------------------------------------------------------------------------------
 FAILS = ['missing', 'missing-after-wrong-shape', 'wrong-dtype', 'wrong-dtype-second', '3d', 'bad-window', 'small-chunk',
-         'dir-target', 'bad-data-type', 'empty-dict', 'small-chunk-other-shape']
+         'dir-target', 'bad-data-type', 'empty-dict', 'small-chunk-other-shape',
+         # the write fails while the bytes of a set are being made (checks run per object, after earlier objects of
+         # the same set were converted); the cause is then removed through the public setters
+         'eflr-param-values', 'eflr-zone-domain', 'eflr-chan-element-limit']
 # successful earlier writes (they must leave no trace in the next write either: e.g. a remembered data dict)
 OKS = ['ok-dict', 'ok-dict-extra-key', 'ok-struct', 'ok-window']
 FINALS = ['dict', 'struct', 'h5', 'dict-missing-key']
@@ -265,7 +268,27 @@ def cases(shard, tier):
 def _fw_spec():
     return {'sul': {'max_record_length': 8192},
             'ops': [S.op_lf(), S.op_origin(), S.op_add('channel', 'CA', 'A'), S.op_add('channel', 'CB', 'B'),
-                    S.op_add('frame', 'F', 'FRAME', channels=[{'$ref': 'CA'}, {'$ref': 'CB'}], index_type='BOREHOLE-DEPTH')]}
+                    S.op_add('frame', 'F', 'FRAME', channels=[{'$ref': 'CA'}, {'$ref': 'CB'}], index_type='BOREHOLE-DEPTH'),
+                    S.op_add('zone', 'Z1', 'ZONE-1', domain='BOREHOLE-DEPTH', maximum=10.0, minimum=1.0),
+                    S.op_add('zone', 'Z2', 'ZONE-2', domain='BOREHOLE-DEPTH', maximum=20.0, minimum=2.0),
+                    S.op_add('zone', 'Z3', 'ZONE-3'),
+                    S.op_add('parameter', 'P1', 'PARAM-1', values=[1.5]),
+                    S.op_add('parameter', 'P2', 'PARAM-2', values=[2.5]),
+                    S.op_add('parameter', 'P3', 'PARAM-3', values=[3.5]),
+                    S.op_add('channel', 'CX', 'LONELY-1'),
+                    S.op_add('channel', 'CY', 'LONELY-2', dimension=[3], element_limit=[3])]}
+
+
+# object-level breakage applied before the failing write and undone after it: (break ops, repair ops)
+EFLR_BREAK = {
+    'eflr-param-values': ([{'op': 'set', 'h': 'P2', 'attr': 'values', 'part': 'value', 'value': [2.5, 9.0]}],
+                          [{'op': 'set', 'h': 'P2', 'attr': 'values', 'part': 'value', 'value': [2.5]}]),
+    'eflr-zone-domain': ([{'op': 'set', 'h': 'Z2', 'attr': 'maximum', 'part': 'value',
+                           'value': {'$dt': [2020, 1, 1, 0, 0, 0, 0], 'tz': 0}}],
+                         [{'op': 'set', 'h': 'Z2', 'attr': 'maximum', 'part': 'value', 'value': 20.0}]),
+    'eflr-chan-element-limit': ([{'op': 'set', 'h': 'CY', 'attr': 'element_limit', 'part': 'value', 'value': [2]}],
+                                [{'op': 'set', 'h': 'CY', 'attr': 'element_limit', 'part': 'value', 'value': [3]}]),
+}
 
 
 def _good():
@@ -401,6 +424,10 @@ def run_case(case):
     for kind in case['fw']:
         kw = _failing_kwargs(kind, path)
         target = path
+        for op in EFLR_BREAK.get(kind, ([], []))[0]:
+            st = S.apply_op(b, op)
+            if st != 'ok':
+                return Outcome('harness', [("C20:harness:break-op-failed", f"{st} | {case}")], False)
         if kind == 'dir-target':
             os.makedirs(dpath, exist_ok=True)
             target = dpath
@@ -414,6 +441,8 @@ def run_case(case):
         finally:
             if os.path.isdir(dpath):
                 os.rmdir(dpath)
+            for op in EFLR_BREAK.get(kind, ([], []))[1]:
+                S.apply_op(b, op)
     got = good_write(b)
     if not final_ok:
         # the final write must fail here exactly as it does on a fresh specification
